@@ -3,7 +3,8 @@
 (* Generator of odML 1.0 documents for C15: from the base                  *)
 (*    doc -+- s1 (a) -+- p1 (a: two value elements)  p2 (b: one value) p5 (c) *)
 (*         |          +- s3 (a) --- p4 (a: one value)                      *)
-(*         +- s2 (b) --- p3 (a: three value elements)                      *)
+(*         +- s2 (b) -+- p3 (a: three value elements)                      *)
+(*                    +- s4 (a)   (a cousin of s3 with the same name)      *)
 (* every sequence of at most MaxMut mutations: duplicate sibling names,    *)
 (* ids present / absent / malformed, unnamed Properties, unsupported       *)
 (* elements at every level, value attributes (unit, type, uncertainty,     *)
@@ -15,7 +16,7 @@
 EXTENDS Naturals, Sequences, FiniteSets, TLC, Json
 CONSTANTS MaxMut
 VARIABLES g, nmut
-SecH == {"s1", "s2", "s3"}
+SecH == {"s1", "s2", "s3", "s4"}
 PropH == {"p1", "p2", "p3", "p4", "p5"}
 All == {"d1"} \cup SecH \cup PropH
 NV(x) == IF x = "p1" THEN 2 ELSE IF x = "p3" THEN 3 ELSE 1
